@@ -54,8 +54,11 @@ CONSTANTS Ops,          \* operator names explored
           FAll,         \* TRUE: every mapper table; FALSE: the identity table (and, if Faults, with one raising entry)
           RG,           \* TRUE: outer tokens form a restricted-growth string (symmetry cut for "gen" tables)
           GenN, GenLen, GenTimes,  \* "gen" tables: GenN inners, <= GenLen events each, at relative ticks GenTimes
-          Lazy          \* TRUE (simulation): the scenario is put together step by step from the generated inner timelines
+          Lazy,         \* TRUE (simulation): the scenario is put together step by step from the generated inner timelines
                         \* instead of being chosen in Init (TLC enumerates all initial states even when it simulates)
+          Slices        \* names of the parameter slices explored by this run: "cfg" = the slice given by the constants
+                        \* above; the others are the fixed slices of the quick tier (SliceOf below), so that one TLC
+                        \* process covers several parameter combinations that are not a cartesian product
 
 MergeOps   == {"merge_all", "merge_mc", "merge_srcs", "flat_map", "flat_map_indexed", "concat_map"}
 SwitchOps  == {"switch_latest", "switch_map", "switch_map_indexed", "flat_map_latest"}
@@ -99,32 +102,65 @@ SetSeq(X) == IF X = {} THEN <<>> ELSE LET x == CHOOSE y \in X : TRUE IN <<x>> \o
 Pool == SetSeq((IF "gen" \in Tabs THEN InnerTLs ELSE {}) \cup UNION {{TabOf(nm)[j] : j \in 1..Len(TabOf(nm))} : nm \in TabNames})
 PoolIdx(tl) == CHOOSE p \in 1..Len(Pool) : Pool[p] = tl
 GenIdx == {PoolIdx(tl) : tl \in InnerTLs}
-InnerTables == UNION {IF nm = "gen" THEN [1..GenN -> GenIdx] ELSE {[j \in 1..Len(TabOf(nm)) |-> PoolIdx(TabOf(nm)[j])]} : nm \in Tabs}
+InnerTables(P) == UNION {IF nm = "gen" THEN [1..GenN -> GenIdx] ELSE {[j \in 1..Len(TabOf(nm)) |-> PoolIdx(TabOf(nm)[j])]} : nm \in P.Tabs}
 
-(* ---- outer timelines --------------------------------------------------------------------- *)
-OT2  == {2 * t : t \in OTimes}
-OTT2 == {2 * t : t \in OTermTimes}
+(* ---- parameter slices ---------------------------------------------------------------------- *)
+CfgSlice == [Ops |-> Ops, MCs |-> MCs, Tabs |-> Tabs, Flavours |-> Flavours, MaxOuter |-> MaxOuter, OTimes |-> OTimes,
+             OTermTimes |-> OTermTimes, OTerms |-> OTerms, DspTicks |-> DspTicks, Takes |-> Takes, Faults |-> Faults,
+             FAll |-> FAll, RG |-> RG]
+QB == [Ops |-> {}, MCs |-> {1}, Tabs |-> {"plain"}, Flavours |-> {"cold"}, MaxOuter |-> 3, OTimes |-> {1, 2, 3},
+       OTermTimes |-> {2, 5}, OTerms |-> {"C", "E", "U"}, DspTicks |-> {}, Takes |-> {}, Faults |-> FALSE, FAll |-> FALSE, RG |-> TRUE]
+SliceOf(nm) ==
+  CASE nm = "cfg" -> CfgSlice
+    \* ---- C11 quick ----
+    [] nm = "q11_merge" -> [QB EXCEPT !.Ops = {"merge_all", "merge_mc"}, !.MCs = {1, 2}]
+    [] nm = "q11_sync"  -> [QB EXCEPT !.Ops = {"merge_all", "merge_mc"}, !.MCs = {1}, !.Flavours = {"sync"}, !.MaxOuter = 2, !.OTermTimes = {2, 3, 5}]
+    [] nm = "q11_error" -> [QB EXCEPT !.Ops = {"merge_all", "merge_mc"}, !.MCs = {2}, !.Tabs = {"error"}, !.Flavours = {"sync"}, !.MaxOuter = 2]
+    [] nm = "q11_mapped" -> [QB EXCEPT !.Ops = {"flat_map", "flat_map_indexed", "concat_map"}, !.Tabs = {"error"}, !.Flavours = {"sync"},
+                                       !.MaxOuter = 2, !.Faults = TRUE, !.OTermTimes = {2, 3, 5}]
+    [] nm = "q11_hot"   -> [QB EXCEPT !.Ops = {"merge_all", "merge_mc"}, !.MCs = {2}, !.Tabs = {"pair", "never"}, !.Flavours = {"hot"}, !.MaxOuter = 2]
+    [] nm = "q11_srcs"  -> [QB EXCEPT !.Ops = {"merge_srcs"}, !.Tabs = {"short", "error"}, !.Flavours = {"cold", "sync"}, !.RG = FALSE]
+    \* dispose instants (also: a first subscriber disposed while inners are queued, then a second one), outer events at instant 0
+    [] nm = "q11_dispose" -> [QB EXCEPT !.Ops = {"merge_all", "merge_mc", "concat_map"}, !.Flavours = {"sync"}, !.MaxOuter = 2,
+                                        !.OTimes = {0, 1, 2}, !.DspTicks = {0, 1, 2}]
+    [] nm = "q11_take"  -> [QB EXCEPT !.Ops = {"merge_mc", "concat_map"}, !.Tabs = {"short"}, !.Flavours = {"sync"}, !.RG = FALSE,
+                                      !.OTimes = {0, 1}, !.OTermTimes = {2}, !.OTerms = {"C", "U"}, !.Takes = {2}]
+    \* ---- C12 quick ----
+    [] nm = "q12_switch" -> [QB EXCEPT !.Ops = {"switch_latest"}, !.Tabs = {"plain", "error"}, !.Flavours = {"cold", "sync"}]
+    [] nm = "q12_short" -> [QB EXCEPT !.Ops = {"switch_latest"}, !.Tabs = {"short", "never"}, !.Flavours = {"sync"}, !.MaxOuter = 2, !.OTermTimes = {2, 3, 5}]
+    [] nm = "q12_mapped" -> [QB EXCEPT !.Ops = {"switch_map", "switch_map_indexed", "flat_map_latest"}, !.Tabs = {"error"},
+                                       !.MaxOuter = 2, !.Faults = TRUE, !.OTermTimes = {2, 3, 5}]
+    [] nm = "q12_hot"   -> [QB EXCEPT !.Ops = {"switch_latest"}, !.Tabs = {"pair", "never"}, !.Flavours = {"hot"}, !.MaxOuter = 2]
+    [] nm = "q12_dispose" -> [QB EXCEPT !.Ops = {"switch_latest", "switch_map"}, !.Flavours = {"sync", "cold"}, !.MaxOuter = 2,
+                                        !.OTimes = {0, 1, 2}, !.DspTicks = {0, 1, 2, 3}]
+    [] nm = "q12_excl"  -> [QB EXCEPT !.Ops = {"exclusive"}, !.Tabs = {"plain", "error"}, !.Flavours = {"cold", "sync"}, !.MaxOuter = 2, !.OTermTimes = {2, 3, 5}]
+    [] nm = "q12_take"  -> [QB EXCEPT !.Ops = {"switch_latest", "exclusive"}, !.Tabs = {"short"}, !.Flavours = {"sync"}, !.RG = FALSE,
+                                      !.MaxOuter = 2, !.OTimes = {0, 1}, !.OTermTimes = {2}, !.OTerms = {"C", "U"}, !.Takes = {1, 2}]
+
+(* ---- outer timelines (P: the slice) ---------------------------------------------------------- *)
+OT2(P)  == {2 * t : t \in P.OTimes}
+OTT2(P) == {2 * t : t \in P.OTermTimes}
 MaxV(s, m) == SetMax({0} \cup {s[i] : i \in 1..m})
 RGok(s) == \A j \in 1..Len(s) : s[j] <= 1 + MaxV(s, j - 1)
-TokSeqs(n, ni) == {s \in [1..n -> 1..ni] : RG => RGok(s)}
-TimeSeqs(n) == {s \in [1..n -> OT2] : \A j \in 1..(n - 1) : s[j] <= s[j + 1]}
-ElemSeqs(n, ni) == {[j \in 1..n |-> [t |-> ts[j], k |-> "N", v |-> vs[j]]] : ts \in TimeSeqs(n), vs \in TokSeqs(n, ni)}
-WithTerm(s) == (IF "U" \in OTerms THEN {s} ELSE {})
-               \cup {Append(s, [t |-> tt, k |-> kk, v |-> 0]) :
-                       tt \in {x \in OTT2 : Len(s) = 0 \/ x >= s[Len(s)].t}, kk \in OTerms \ {"U"}}
-OuterTLs(ni) == UNION {WithTerm(s) : s \in UNION {ElemSeqs(n, ni) : n \in 0..MaxOuter}}
+TokSeqs(P, n, ni) == {s \in [1..n -> 1..ni] : P.RG => RGok(s)}
+TimeSeqs(P, n) == {s \in [1..n -> OT2(P)] : \A j \in 1..(n - 1) : s[j] <= s[j + 1]}
+ElemSeqs(P, n, ni) == {[j \in 1..n |-> [t |-> ts[j], k |-> "N", v |-> vs[j]]] : ts \in TimeSeqs(P, n), vs \in TokSeqs(P, n, ni)}
+WithTerm(P, s) == (IF "U" \in P.OTerms THEN {s} ELSE {})
+                  \cup {Append(s, [t |-> tt, k |-> kk, v |-> 0]) :
+                          tt \in {x \in OTT2(P) : Len(s) = 0 \/ x >= s[Len(s)].t}, kk \in P.OTerms \ {"U"}}
+OuterTLs(P, ni) == UNION {WithTerm(P, s) : s \in UNION {ElemSeqs(P, n, ni) : n \in 0..P.MaxOuter}}
 \* merge(sources...): from_iterable(sources) - every source arrives at the subscription instant, then the outer completes
-SrcsTLs(ni) == {[j \in 1..(Len(vs) + 1) |-> IF j <= Len(vs) THEN [t |-> 0, k |-> "N", v |-> vs[j]] ELSE [t |-> 0, k |-> "C", v |-> 0]] :
-                  vs \in UNION {TokSeqs(n, ni) : n \in 0..MaxOuter}}
-OutersOf(o, ni) == IF o = "merge_srcs" THEN SrcsTLs(ni) ELSE OuterTLs(ni)
+SrcsTLs(P, ni) == {[j \in 1..(Len(vs) + 1) |-> IF j <= Len(vs) THEN [t |-> 0, k |-> "N", v |-> vs[j]] ELSE [t |-> 0, k |-> "C", v |-> 0]] :
+                     vs \in UNION {TokSeqs(P, n, ni) : n \in 0..P.MaxOuter}}
+OutersOf(P, o, ni) == IF o = "merge_srcs" THEN SrcsTLs(P, ni) ELSE OuterTLs(P, ni)
 
-FMapsOf(o, ni) ==
+FMapsOf(P, o, ni) ==
   IF o \notin (MappedOps \cup IndexedOps) THEN {[v \in 1..ni |-> v]}
-  ELSE IF FAll THEN [1..ni -> (IF Faults THEN 0..ni ELSE 1..ni)]
-  ELSE {[v \in 1..ni |-> IF v \in R THEN RAISE ELSE v] : R \in {{}} \cup (IF Faults THEN {{v} : v \in 1..ni} ELSE {})}
-McsOf(o) == IF o = "merge_mc" THEN MCs ELSE {0}
-Dsps == {2 * d + 1 : d \in DspTicks} \cup {NEVER}
-TakeKs == Takes \cup {0}            \* 0 = no take
+  ELSE IF P.FAll THEN [1..ni -> (IF P.Faults THEN 0..ni ELSE 1..ni)]
+  ELSE {[v \in 1..ni |-> IF v \in R THEN RAISE ELSE v] : R \in {{}} \cup (IF P.Faults THEN {{v} : v \in 1..ni} ELSE {})}
+McsOf(P, o) == IF o = "merge_mc" THEN P.MCs ELSE {0}
+Dsps(P) == {2 * d + 1 : d \in P.DspTicks} \cup {NEVER}
+TakeKs(P) == P.Takes \cup {0}            \* 0 = no take
 
 (* ---- state --------------------------------------------------------------------------------- *)
 VARIABLES phase,  \* "run"; with Lazy first "tab", "fmap", "outer" while the scenario is being put together
@@ -157,16 +193,19 @@ S0 == [act |-> <<>>,      \* active inner subscriptions, in subscription order: 
        subs |-> <<>>,     \* subscription log, indexed by sid: [idx, open, close]
        osub |-> NEVER,    \* close instant of the outer subscription (opened at 0)
        todo |-> <<>>,     \* pending calls of the lane event being delivered
-       amb |-> FALSE]     \* some instant had two lanes due (the scenario has more than one allowed outcome order)
+       amb |-> FALSE,     \* some instant had two lanes due (the scenario has more than one allowed outcome order)
+       peak |-> 0]        \* largest number of inner subscriptions that were open at the same moment (sub-instant order counts:
+                          \* an inner counts from subscribe() until its terminal notification or its unsubscription)
 
-EagerInit == \E o \in Ops, tb \in InnerTables, f \in Flavours :
-               \E m \in McsOf(o), ou \in OutersOf(o, Len(tb)), fm \in FMapsOf(o, Len(tb)), d \in Dsps, tk \in TakeKs :
+EagerInit == \E nm \in Slices : LET P == SliceOf(nm) IN
+             \E o \in P.Ops, tb \in InnerTables(P), f \in P.Flavours :
+               \E m \in McsOf(P, o), ou \in OutersOf(P, o, Len(tb)), fm \in FMapsOf(P, o, Len(tb)), d \in Dsps(P), tk \in TakeKs(P) :
                  /\ scn = [op |-> o, mc |-> m, tab |-> tb, fl |-> f, outer |-> ou, fmap |-> fm, dsp |-> d, take |-> tk]
                  /\ phase = "run" /\ now = 0 /\ opos = 1 /\ hpos = [i \in 1..Len(tb) |-> 1] /\ S = S0
 
 \* Lazy: operator, flavour, max_concurrent and dispose instant in Init; then GenN inner timelines one by one, the mapper
 \* table, and the outer timeline event by event.  Every scenario of the eager enumeration over "gen" tables can be built.
-LazyInit == \E o \in Ops, f \in Flavours : \E m \in McsOf(o), d \in Dsps, tk \in TakeKs :
+LazyInit == \E o \in Ops, f \in Flavours : \E m \in McsOf(CfgSlice, o), d \in Dsps(CfgSlice), tk \in TakeKs(CfgSlice) :
                /\ scn = [op |-> o, mc |-> m, tab |-> <<>>, fl |-> f, outer |-> <<>>, fmap |-> <<>>, dsp |-> d, take |-> tk]
                /\ phase = "tab" /\ now = 0 /\ opos = 1 /\ hpos = <<>> /\ S = S0
 Init == IF Lazy THEN LazyInit ELSE EagerInit
@@ -176,7 +215,7 @@ PickInner == /\ phase = "tab"
              /\ phase' = IF Len(scn.tab) + 1 = GenN THEN "fmap" ELSE "tab"
              /\ UNCHANGED <<now, opos, hpos, S>>
 PickFmap == /\ phase = "fmap"
-            /\ \E fm \in FMapsOf(scn.op, GenN) : scn' = [scn EXCEPT !.fmap = fm]
+            /\ \E fm \in FMapsOf(CfgSlice, scn.op, GenN) : scn' = [scn EXCEPT !.fmap = fm]
             /\ phase' = "outer" /\ hpos' = [i \in 1..GenN |-> 1]
             /\ UNCHANGED <<now, opos, S>>
 OLast == IF scn.outer = <<>> THEN 0 ELSE scn.outer[Len(scn.outer)].t
@@ -190,9 +229,9 @@ PickOuter ==
         \/ /\ scn' = [scn EXCEPT !.outer = Append(@, [t |-> 0, k |-> "C", v |-> 0])] /\ phase' = "run"
      ELSE
         \/ /\ ONum < MaxOuter
-           /\ \E t \in {x \in OT2 : x >= OLast}, v \in 1..GenN : scn' = [scn EXCEPT !.outer = Append(@, [t |-> t, k |-> "N", v |-> v])]
+           /\ \E t \in {x \in OT2(CfgSlice) : x >= OLast}, v \in 1..GenN : scn' = [scn EXCEPT !.outer = Append(@, [t |-> t, k |-> "N", v |-> v])]
            /\ phase' = "outer"
-        \/ /\ \E t \in {x \in OTT2 : x >= OLast}, kk \in OTerms \ {"U"} : scn' = [scn EXCEPT !.outer = Append(@, [t |-> t, k |-> kk, v |-> 0])]
+        \/ /\ \E t \in {x \in OTT2(CfgSlice) : x >= OLast}, kk \in OTerms \ {"U"} : scn' = [scn EXCEPT !.outer = Append(@, [t |-> t, k |-> kk, v |-> 0])]
            /\ phase' = "run"
         \/ /\ "U" \in OTerms /\ scn' = scn /\ phase' = "run"
   /\ UNCHANGED <<now, opos, hpos, S>>
@@ -218,6 +257,7 @@ Subscribe(s, t, idx) ==
   LET sid == Len(s.subs) + 1
       ns  == NSync(idx) IN
   [s EXCEPT !.subs = Append(@, [idx |-> idx, open |-> t, close |-> NEVER]),
+            !.peak = Max2(@, Cardinality({q \in 1..Len(s.subs) : s.subs[q].close = NEVER}) + 1),
             !.act  = Append(@, [sid |-> sid, idx |-> idx, start |-> t, pos |-> ns + 1]),
             !.todo = [j \in 1..ns |-> [k |-> "I", a |-> sid, b |-> j]] \o @]
 Unsubscribe(s, t, sid) ==
@@ -324,8 +364,10 @@ Grammar == \A j \in 1..Len(S.out) : S.out[j].k # "N" => j = Len(S.out)
 Released == S.done => (Open(S) = {} /\ S.osub # NEVER)
 \* the active list is exactly the set of open subscriptions
 ActiveOpen == {S.act[n].sid : n \in 1..Len(S.act)} = Open(S)
-\* C11: at most max_concurrent inner subscriptions at any time; C12 / exclusive: at most one
-Concurrency == Cardinality(Open(S)) <= (IF IsMerge THEN Mc ELSE 1)
+\* C11: at most max_concurrent inner subscriptions at any time; C12 / exclusive: at most one - also within an instant
+\* (the previous inner is unsubscribed before the next one is subscribed): peak is the running maximum
+Concurrency == /\ Cardinality(Open(S)) <= (IF IsMerge THEN Mc ELSE 1)
+               /\ S.peak <= (IF IsMerge THEN Mc ELSE 1)
 \* C11: an inner waits only while all slots are taken
 NoIdleSlot == (S.todo = <<>> /\ S.queue # <<>>) => Len(S.act) = Mc
 \* instants never decrease along the output
@@ -443,7 +485,7 @@ FinalInv == (RefScope => LET Q == Sched(NEff) IN RefOutBody(Q) /\ RefSubsBody(Q)
 (* ---- export ---------------------------------------------------------------------------------- *)
 ExportLine == PrintT(ToJson([scn |-> [op |-> scn.op, mc |-> scn.mc, fl |-> scn.fl, outer |-> scn.outer, fmap |-> scn.fmap,
                                             dsp |-> scn.dsp, take |-> scn.take, tab |-> [i \in 1..NI |-> Inner(i)]],
-                                  obs |-> [out |-> S.out, subs |-> S.subs, osub |-> S.osub, amb |-> S.amb]]))
+                                  obs |-> [out |-> S.out, subs |-> S.subs, osub |-> S.osub, amb |-> S.amb, peak |-> S.peak]]))
 Export == Final => ExportLine
 AllInv == StateInv /\ (Final => (FinalInv /\ ExportLine))
 ================================================================================
